@@ -505,6 +505,51 @@ def rule_catalog_seeded(ck):
              o.fail('the resampled catalog has size `%s`, it must hold exactly the observed number of events int(N_obs)' % txt[:70]))
 
 
+def rule_zero_events(ck):
+    """D7.empty: a simulated catalog may have no events (an L-test draw of 0, an empty observation in the conditional tests): in the
+    simulators nothing takes the minimum / maximum / arg-extremum of a per-event array without an `initial=` or a test that there are
+    events - numpy raises "zero-size array to reduction operation" for the empty case and the whole test fails"""
+    P = ck.prog
+    ck.clause('D7')
+    REDUCE = ('numpy.min', 'numpy.max', 'numpy.amin', 'numpy.amax', 'numpy.argmin', 'numpy.argmax', 'numpy.nanmin', 'numpy.nanmax', 'builtins.min', 'builtins.max',
+              '.min', '.max', '.argmin', '.argmax')
+    for sq in (PE + '_simulate_catalog', BE + '_simulate_catalog', BR + '_simulate_catalog'):
+        f = P.func(sq)
+        # per-event names: the injected / drawn numbers and whatever is computed from them element-wise
+        per_event = {'random_numbers'} & set(f.params)
+        changed = True
+        while changed:
+            changed = False
+            for a in all_nodes(f):
+                if isinstance(a, ast.Assign) and len(a.targets) == 1 and isinstance(a.targets[0], ast.Name) and a.targets[0].id not in per_event:
+                    if any(isinstance(x, ast.Name) and x.id in per_event for x in ast.walk(a.value)) or \
+                            any(isinstance(x, ast.Call) and (callee(P, f, x) or '') in ('numpy.random.rand', 'numpy.random.uniform', 'numpy.random.random') for x in ast.walk(a.value)):
+                        per_event.add(a.targets[0].id)
+                        changed = True
+        n = 0
+        for c in all_nodes(f):
+            if not isinstance(c, ast.Call):
+                continue
+            nm = callee(P, f, c) or ''
+            if nm not in REDUCE and not (isinstance(c.func, ast.Attribute) and ('.' + c.func.attr) in REDUCE):
+                continue
+            arg = c.args[0] if c.args else (c.func.value if isinstance(c.func, ast.Attribute) else None)
+            if arg is None or not any(isinstance(x, ast.Name) and x.id in per_event for x in ast.walk(arg)):
+                continue
+            if nm in ('builtins.min', 'builtins.max') and len(c.args) > 1:
+                continue
+            n += 1
+            o = ck.ob('C06-D7.empty', f, c, c)
+            if kw(c, 'initial') is not None or kw(c, 'default') is not None:
+                o.ok('has an initial value')
+                continue
+            guarded = any(any(w in u(t) for w in ('num_events', 'len(', '.size', 'shape[0]', 'sim_cells')) for t, pol in guards_of(c, f.node))
+            (o.ok('guarded by a test on the number of events') if guarded else
+             o.fail('`%s` reduces a per-event array that is empty when the catalog to simulate has no events: ValueError (zero-size array to '
+                    'reduction operation) instead of an empty simulated catalog' % u(c)[:60]))
+        ck.extra.setdefault('extremum_reductions_in_simulators', {})[f.short] = n
+
+
 def rule_precision(ck):
     """D4.double: the cumulative weights are built from the rates in the precision they were supplied in: an interval boundary F_k
     rounded to float32 moves by up to 6e-8 F_k, so a uniform number next to it is placed in the neighbouring bin"""
@@ -524,4 +569,4 @@ def rule_rates_view(ck):
 
 
 RULES = [rule_seed, rule_rng_sources, rule_sampling, rule_weights, rule_reset, rule_event_numbers, rule_quantile, rule_catalog_seeded, rule_precision,
-         rule_rates_view]
+         rule_rates_view, rule_zero_events]
